@@ -15727,7 +15727,7 @@ func (c *GoCompiler) convertValueToWiderType(v *goValue) *goValue {
 		return v
 	case "bool":
 		return v.newGoValue(
-			fmt.Sprintf("value.ToBoolVal(%s)", v.value),
+			fmt.Sprintf("value.BoolVal(bool(%s))", v.value),
 			v.elkType,
 			goValueType,
 		)
